@@ -1295,6 +1295,15 @@ fn derive_reprc_new(input: DeriveInput) -> TokenStream {
                 return implement_reprc_hardcoded_false(name.clone(), &input);
             }
 
+            if enum1.variants.iter().any(|v| v.discriminant.is_some()) {
+                // The serialized format stores the index of the variant, but memory holds the
+                // explicitly declared discriminant value. The two can differ, so never blit.
+                if opt_in_fast {
+                    abort_call_site!("The #[savefile_require_fast] attribute cannot be used for enums with explicit discriminant values");
+                }
+                return implement_reprc_hardcoded_false(name.clone(), &input);
+            }
+
             let mut conditions = vec![];
 
             let mut min_safe_version: u32 = 0;
